@@ -1903,6 +1903,13 @@ class FnTr:
         segs = callee[1]
         key = "::".join(segs)
         args = e[2]
+        nd = self.a.spec.get("nondet", {})
+        if self.print_chain(e) in nd:
+            ln, ty = nd[self.print_chain(e)]
+            self.ndraw += 1
+            if self.ndraw > 1:
+                self.fail(f"more than one draw of `{self.print_chain(e)}` in one function")
+            return Val(ln, self.tyspec(ty))
         # foreign calls declared in the spec
         for k, spec in self.a.spec.get("calls", {}).items():
             if key == k or key.endswith("::" + k):
@@ -1980,10 +1987,10 @@ class FnTr:
         r = self.ex(recv, env)
         rn = ty_name(r.ty)
         R = self.par(r.lean)
-        sm = self.a.spec.get("methods", {})
-        if name in sm and (sm[name].get("on") is None or sm[name]["on"] == rn):
-            argv = [self.par(self.ex(x, env).lean) for x in args]
-            return Val(sm[name]["lean"].format(R, *argv), self.tyspec(sm[name].get("ty")) if sm[name].get("ty") != "same" else r.ty)
+        for sm in self.a.spec.get("methods", []):
+            if sm["name"] == name and (sm.get("on") is None or sm["on"] == rn) and len(args) == sm["lean"].count("{") - 1:
+                argv = [self.par(self.ex(x, env).lean) for x in args]
+                return Val(sm["lean"].format(R, *argv), self.tyspec(sm.get("ty")) if sm.get("ty") != "same" else r.ty)
 
         def arg(i, want=None):
             return self.ex(args[i], env, want)
